@@ -4,7 +4,7 @@ import re
 from .. import app, engine, fixlib
 from ..runner import Run, h64
 
-PLAN = {"B2/53": 300, "B3/89": 180, "N1/11": 420, "W1/2": 360, "S2": 240, "S3": 60, "I4/97": 120, "U1/7": 60, "P2": 180, "R2/3": 200}
+PLAN = {"B2/53": 300, "B3/89": 180, "N1/11": 420, "W1/2": 360, "S2": 240, "S3": 60, "I4/97": 120, "U1/7": 60, "P2": 180, "R2/3": 200, "Z1": 300}
 EVALUATOR = "vp.props.c10:ev"
 RULE = (
     "file sets of 3: the universe document plus two companions drawn by source hash from a pool of clean / unfixable-failure / fixable documents, placed before and after it in "
